@@ -51,6 +51,9 @@ class Driver:
         # a quarter of the histories invoke every command from a sub-directory of the project (gwf finds the
         # workflow in a parent directory); the sub-directory holds unrelated files named like the workflow's
         self.subdir = "analysis" if variant % 4 == 3 else None
+        # the scheduler's id counter: usually four digits; for some histories it crosses a digit boundary (9 -> 10,
+        # 99 -> 100) while the history runs (ids are strings for gwf: "9" sorts after "10")
+        self.first_id = [FIRST_ID, 8, FIRST_ID, 97, FIRST_ID, 6][variant % 6]
         self.pool = None       # the real local worker pool (local back end only)
         self.epoch_base = 0    # number of jobs accepted by earlier pools (ids restart with every pool)
         self.seen_enq = 0
@@ -130,7 +133,7 @@ class Driver:
         for j in self.jobs:
             if j["gone"]:
                 continue
-            rid = str(j["id"] + FIRST_ID - 1)
+            rid = str(j["id"] + self.first_id - 1)
             st = j["st"]
             # with accounting, a fifth of the jobs are ones whose accounting record lags behind the controller: once
             # finished they are still listed by squeue with their final code while sacct shows their last live state
@@ -158,7 +161,7 @@ class Driver:
     # -- projection ---------------------------------------------------------
     def norm_id(self, raw):
         try:
-            return int(str(raw)) - FIRST_ID + 1 if str(raw) == str(int(str(raw))) else -7
+            return int(str(raw)) - self.first_id + 1 if str(raw) == str(int(str(raw))) else -7
         except ValueError:
             return -7
 
@@ -287,7 +290,8 @@ class Driver:
     # -- steps ----------------------------------------------------------------
     def step_init(self, h):
         sb = self.sb
-        sb.reset(first_id=FIRST_ID)
+        # (a seventh of the projects live in a directory whose name has a bracket group, like "run[2]")
+        sb.reset(first_id=self.first_id, projname="run[2]" if self.variant % 7 == 5 else "proj")
         self.use_hash = bool(h["useHash"])
         self.local_trk = {}
         if self.backend == "local":
@@ -642,7 +646,7 @@ class Driver:
                 if rj is not None:
                     refused.append(rj["id"])
         # (a third of the refusals are silent ones: non-zero exit, the complaint on stdout, nothing on stderr)
-        sb.set_refuse([str(j + FIRST_ID - 1) for j in refused], silent=self.backend in ("sge", "lsf") and (self.variant + len(self.events)) % 3 == 0)
+        sb.set_refuse([str(j + self.first_id - 1) for j in refused], silent=self.backend in ("sge", "lsf") and (self.variant + len(self.events)) % 3 == 0)
         r, calls, obs = self.observe_cmd(args + self.names(h["sel"]) + nomatch, input=inp)
         sb.set_refuse([])
         reqs = []
